@@ -764,8 +764,10 @@ class WaveSpectrum(DatasetWrapper):
 
     @staticmethod
     def _spread(a1: xarray.DataArray, b1: xarray.DataArray) -> xarray.DataArray:
+        # For (near) unidirectional waves a1**2 + b1**2 may exceed 1 by rounding
+        # error, clip to avoid the square root of a negative number (nan spread).
         return xarray.DataArray(
-            np.sqrt(2 - 2 * np.sqrt(a1**2 + b1**2)) * 180 / np.pi
+            np.sqrt(np.maximum(2 - 2 * np.sqrt(a1**2 + b1**2), 0.0)) * 180 / np.pi
         )
 
     @property
